@@ -35,7 +35,7 @@ func main() {
 	run.Assumptions = []string{
 		"CloseProxy has no reply in the protocol: a following Ping/Pong on the same session is used as acknowledgement",
 		"a session drop is acknowledged when the run id has left the server's session table (verif snapshot), bounded by 20 s",
-		"operations on the same proxy name are issued one at a time (a failing duplicate registration legitimately holds a port for a moment; name contention is C12's subject), everything else is concurrent",
+		"operations on the same proxy name are issued one at a time, except one racing pair of duplicate registrations per history and the duplicate-name scenarios: a registration refused with 'proxy name ... already in use' (it lost the name after acquiring and binding its explicit port) is acquisition plus undo for the reference allocator; which of two racing duplicates wins is C12's subject",
 		"an acknowledged registration is two steps of the reference allocator inside its call/return interval (accounting, then listen): the server acquires first and listens later, other programs and probes can see the port unbound in between; a registration refused with a listen error is acquisition plus undo (legal only while another program holds the port named in the error); other refusals are one step",
 		"a refused request for a server-chosen port is tolerated while at least one free allowed port is held by another program (the server chooses first and listens later, and its search is bounded to 5 candidates)",
 		"a spelling of the allow list that the repository's loader rejects is not a verdict (the case then runs from TOML; rejections of well-formed spellings are counted as inconclusive); an accepted spelling must give exactly the logical set",
@@ -45,7 +45,7 @@ func main() {
 	initBlocks()
 
 	nHist := run.N(360, 5000)
-	nScen := run.N(196, 1540)
+	nScen := run.N(224, 1600)
 	nMgr := run.N(90, 600)
 	total := nHist + nScen + nMgr
 	run.Parallel(total, 10, func(c *h.Case) {
@@ -179,6 +179,16 @@ func historyCase(c *h.Case) {
 			plan[s] = append(plan[s], op)
 		}
 	}
+	// racing duplicates: two sessions register one (otherwise unused) proxy name on different explicit ports at once
+	if nSess >= 2 && len(allowed) >= 2 && rng.Intn(3) == 0 {
+		ss := rng.Perm(nSess)
+		pp := shuffled(rng, allowed)
+		pr := []string{"tcp", "udp"}[rng.Intn(2)]
+		for k := 0; k < 2; k++ {
+			s := ss[k] + 1
+			plan[s] = append([]planOp{{Kind: "dupreg", Name: w.pfx + "d", Proto: pr, Port: pp[k]}}, plan[s]...)
+		}
+	}
 	// squatter thread
 	var squatPlan []planOp
 	for i, n := 0, rng.Intn(5); i < n; i++ {
@@ -203,6 +213,8 @@ func historyCase(c *h.Case) {
 				switch op.Kind {
 				case "reg":
 					w.reg(s, op.Name, op.Proto, op.Port, op.Group, op.GroupKey)
+				case "dupreg":
+					w.regNoLock(s, op.Name, op.Proto, op.Port, "", "")
 				case "close":
 					w.closeP(s, op.Name)
 				case "probe":
